@@ -938,14 +938,20 @@ func runCrashCase(cc crashCase, quick bool, deadline time.Time) (res crashResult
 			res.Vios = append(res.Vios, vio{Key: key, What: fmt.Sprintf("%s [%s]: %s", w.cc, cp, v.what), Replay: w.replay(cp)})
 		}
 	}
-	// power-loss attribution: a lossy state is reported only if losing the writes changes the verdict of the same crash
-	// point without loss, and a two-device loss is attributed to one device when that device alone gives the same verdict.
+	// power-loss model: per prefix the lossless state is evaluated first. If it already violates the oracle (a process-crash
+	// finding), the lossy variants of that prefix are not expanded (their verdicts could not be told apart from it). Otherwise
+	// a lossy state that violates is a power-loss finding; a two-device loss is attributed to one device when losing that
+	// device alone (same depth) gives the same verdict.
 	base := ""
 	single := map[string]string{}
 	for i, cp := range pts {
 		if time.Now().After(deadline) {
 			res.Capped = len(pts) - i
 			break
+		}
+		if cc.Model == "power" && len(cp.lostBy) > 0 && base != "" {
+			res.Points["power-loss states not expanded (the lossless state already violates)"]++
+			continue
 		}
 		v := w.evaluate(cp, cur)
 		res.Points[cp.kind]++
@@ -958,35 +964,34 @@ func runCrashCase(cc crashCase, quick bool, deadline time.Time) (res crashResult
 			}
 			continue
 		}
-		switch len(cp.lostBy) {
-		case 0:
+		if len(cp.lostBy) == 0 {
 			base = v.class
 			single = map[string]string{}
 			res.Outcomes["no loss: "+v.outcome]++
-		case 1:
-			single[cp.lostBy[0].String()] = v.class
-			fallthrough
-		default:
-			devs := ""
-			switch {
-			case v.class == base:
-				res.Outcomes["loss changes nothing"]++
-				continue
-			case v.class == "":
-				res.Outcomes["loss hides the verdict of the lossless state"]++
-				continue
-			case len(cp.lostBy) == 1:
-				devs = cp.lostBy[0].dev
-			case component(single[cp.lostBy[0].String()]) == component(v.class):
-				devs = cp.lostBy[0].dev
-			case component(single[cp.lostBy[1].String()]) == component(v.class):
-				devs = cp.lostBy[1].dev
-			default:
-				devs = cp.lostBy[0].dev + "+" + cp.lostBy[1].dev
-			}
-			res.Outcomes["loss of "+devs+": "+component(v.class)]++
-			report("power-loss:unsynced-writes-lost-on="+devs+":"+component(v.class), cp, v)
+			continue
 		}
+		if len(cp.lostBy) == 1 {
+			single[cp.lostBy[0].String()] = v.class
+		}
+		if v.class == "" {
+			res.Outcomes["loss tolerated"]++
+			continue
+		}
+		devs := cp.lostBy[0].dev
+		if len(cp.lostBy) == 2 {
+			a, b := cp.lostBy[0], cp.lostBy[1]
+			sa, sb := single[a.String()], single[b.String()]
+			switch {
+			case sa == v.class, sa != "" && sb == "", sa != "" && component(sa) == component(v.class):
+				devs = a.dev
+			case sb == v.class, sb != "" && sa == "", sb != "" && component(sb) == component(v.class):
+				devs = b.dev
+			default:
+				devs = a.dev + "+" + b.dev
+			}
+		}
+		res.Outcomes["loss of "+devs+": "+component(v.class)]++
+		report("power-loss:unsynced-writes-lost-on="+devs+":"+component(v.class), cp, v)
 	}
 	if cc.Model == "process" && strings.ContainsRune(cc.Hist, 'E') && !time.Now().After(deadline) {
 		outcome, v := w.unseenEvidence(cur)
@@ -1294,7 +1299,7 @@ func runCrash(r *vk.Run) (evaluated int) {
 	r.Assume("the interleaving of the three BlockStore.SaveBlock goroutines is replaced by the set of order ideals of their units (every reachable set of completed units), not by the one order observed")
 	r.Assume("validator-set changes are injected at the fixture seam minichain.Options.ValidatorsAt (same answer before and after the restart); consensus WAL, ConsensusState replay and system contracts are outside this check")
 	if !r.Quick() {
-		r.Assume("power-loss model: a device may lose a suffix (at most 4 units) of the writes it received after its last synchronous write; at most two devices lag; only writes after genesis are candidates; the undo-log file is covered by the torn-append states")
+		r.Assume("power-loss model: a device may lose a suffix (at most 4 units) of the writes it received after its last synchronous write (sync marks as recorded by kv.LogDB: SetSync/DeleteSync/WriteSync, incl. the empty-key flush markers); at most two devices lag; only writes after genesis are candidates; the undo-log file is covered by the torn-append states (each append is fsync'ed, truncation is taken as durable); lossy variants are expanded only for prefixes whose lossless state satisfies the oracle")
 	}
 	return restarts
 }
